@@ -46,7 +46,7 @@ class Normalisation(Facet):
         mat = materialise(spec)
         try:
             info = SpecInfo(spec, mat.classes)
-            any_weight = any(c.get("weight") is not None for c in spec["concretes"])
+            any_weight = any(c.get("weight") is not None for c in spec["concretes"] + spec["abstracts"])
             rec.label("weighted" if any_weight else "unweighted", f"extractions={case['extractions']}")
             prev = None
             for it in range(case["extractions"]):
